@@ -36,7 +36,7 @@ def judge(chk, traces, name="traces"):
     path = chk.dir / f"{name}.ndjson"
     write_ndjson(path, traces)
     res = run_tlc("Trace_Session", "Trace_Session", workdir=chk.dir, env={"TRACE_FILE": str(path)},
-                  timeout=3000)
+                  timeout=3000, workers=4)
     chk.add_tlc(res)
     verdicts = {}
     for r in res.records:
